@@ -102,6 +102,7 @@ type Exec struct {
 	allocd    []*Term
 	entryPtrs []*Term
 	arrRegions    map[*types.Var]*Region
+	arrSnaps      map[*types.Var]*Region
 	usedContracts map[string]*Contract
 	ghostTypes    map[string]types.Type
 	curPos        token.Pos
@@ -1066,6 +1067,16 @@ func (x *Exec) markContractMod(m *modSet, c *Contract, fn *types.Func, call *ast
 		if arg := x.argForParam(c, fn, call, pname); arg != nil {
 			x.markElemWrite(m, arg)
 		}
+		return
+	}
+	if j := strings.LastIndex(mod, ".#"); j >= 0 {
+		for _, g := range x.eng.cs.expandGhost(mod[j+2:]) {
+			m.heapKeys["ghost:"+g] = true
+		}
+		return
+	}
+	if strings.HasPrefix(mod, "map:") {
+		m.heapKeys[mod] = true
 		return
 	}
 	if i := strings.Index(mod, "."); i >= 0 {
